@@ -28,7 +28,7 @@ func init() {
 			"arrival time stamp of a message = accumulated Driver.Sleep time of the Send call that carried its last byte (C04)",
 			"inter-arrival gaps are kept below 0x07FFFFFF ticks at the recording tempo and resolution (a delta must be representable in the file)",
 		},
-		Require: []string{"old_driver_recordings", "recordings_with_empty_deliveries", "overdubs_into_read_files", "recordings", "channel_messages_recorded", "non_channel_messages_sent", "realtime_sent", "syscommon_sent", "strict_validated", "read_back", "delta_checks", "file_level_recordings", "recordings_with_long_pause", "recordings_with_oversized_sysex", "long_sessions_beyond_2^32_ticks", "recordings_with_silence_beyond_the_delta_range"},
+		Require: []string{"old_driver_recordings", "recordings_with_empty_deliveries", "overdubs_into_read_files", "recordings", "channel_messages_recorded", "non_channel_messages_sent", "realtime_sent", "syscommon_sent", "strict_validated", "read_back", "delta_checks", "file_level_recordings", "recordings_with_long_pause", "recordings_with_oversized_sysex", "long_sessions_beyond_2^32_ticks", "recordings_with_silence_beyond_the_delta_range", "long_takes_over_21845_messages"},
 		Run:     runC13,
 	})
 }
@@ -513,6 +513,64 @@ func runC13(c *mon.Ctx) {
 			in["written_file"] = mon.Hex(buf.Bytes())
 			c.ViolationSig("recorded-file-invalid", "recorded-file-invalid:silence-above-0x0FFFFFFF-ticks", fmt.Sprintf("a silence of %d ms (= %d ticks, more than the 0x0FFFFFFF an SMF delta can hold) is recorded as delta %d: the recorded track, closed and written, is not a valid SMF: %v", gapMs, x, tr[2].Delta, err), in, "valid SMF", err.Error())
 		}
+	})
+
+	// a long take: tens of thousands of channel messages of mixed sizes in ONE recording session (one listener), a few
+	// milliseconds apart; every recorded message must still be what arrived when the take is over
+	c.Each("long-take", c.N(3, 30), func(i int64, r *mon.Rand) {
+		res, bpm := uint16(r.Pick(96, 480, 960)), float64(r.Pick(60, 120, 133))
+		n := r.Pick(30_000, 45_000, 70_000)
+		l := newL2()
+		var tr smf.Track
+		var stop func()
+		var err error
+		in := map[string]any{"resolution": res, "bpm": bpm, "messages": n, "scenario": "one take of tens of thousands of two- and three-byte channel messages, 0..3 ms apart"}
+		if c.Guard("panic:RecordFrom", in, func() { stop, err = tr.RecordFrom(l.in, smf.MetricTicks(res), bpm) }) || err != nil {
+			return
+		}
+		want := make([][]byte, 0, n)
+		var atMs []int64
+		var now int64
+		for k := 0; k < n; k++ {
+			var m []byte
+			switch r.Intn(8) {
+			case 0:
+				m = []byte{0xC0 | byte(k&15), byte(k & 127)}
+			case 1:
+				m = []byte{0xD0 | byte(k&15), byte(k >> 3 & 127)}
+			default:
+				m = []byte{0x90 | byte(k&15), byte(k & 127), byte(1 + k>>7&63)}
+			}
+			d := int64(r.Intn(4))
+			now += d
+			l.drv.Sleep(time.Duration(d) * time.Millisecond)
+			l.out.Send(m)
+			want = append(want, m)
+			atMs = append(atMs, now)
+		}
+		stop()
+		c.Count("recordings", 1)
+		c.Count("long_takes_over_21845_messages", 1)
+		c.Eval(1)
+		if len(tr) != n+1 {
+			c.Violation("content", fmt.Sprintf("long take: %d messages sent, %d events recorded after the tempo event", n, len(tr)-1), in, n, len(tr)-1)
+			return
+		}
+		var abs int64
+		for k := 0; k < n; k++ {
+			e := tr[k+1]
+			abs += int64(e.Delta)
+			c.Count("channel_messages_recorded", 1)
+			if !bytes.Equal(e.Message, want[k]) {
+				c.Violation("content", fmt.Sprintf("long take of %d messages: recorded channel message %d is % X, the message that arrived was % X", n, k, []byte(e.Message), want[k]), in, mon.Hex(want[k]), mon.Hex(e.Message))
+				return
+			}
+			if x := c13ExpectedTicks(atMs[k], res, bpm); abs-x > int64(k)+1 || x-abs > int64(k)+1 {
+				c.Violation("delta", fmt.Sprintf("long take: message %d arrived at %d ms = tick %d, recorded at tick %d", k, atMs[k], x, abs), in, x, abs)
+				return
+			}
+		}
+		c.DistinctBytes([]byte(fmt.Sprint("longtake", i, n)))
 	})
 
 	// SMF.RecordFrom / smf.RecordTo: their stop functions sleep one second each
